@@ -347,6 +347,78 @@ def leg_overflow(wd, binary, verdict, stub=""):
     return o
 
 
+def leg_gated(wd, binary, verdict, stub="", only=""):
+    """The scheduled concurrent leg (C15, C08): renter A's RPC is parked at a chosen Contractor call, renter B's RPC on
+    the same contract runs to completion meanwhile, then A goes on; RPC pairs x gate points are enumerated.  Every
+    history must be a Host.tla behaviour in one of the two orders consistent with real time (primary: the order in
+    which the recorder saw the two LockV2Contract calls); a history that neither order explains is a violation."""
+    env = {"VERIF_GATED_ONLY": only} if only else {}
+    o = run_driver(wd, binary, "gated", 1, env, verdict, stub=stub)
+    prim = list(split_traces(o["files"][0]))
+    altp = os.path.join(wd, "hosttrace-gatedalt-0.ndjson")
+    alts = {}
+    for tr in split_traces(altp):
+        alts[json.loads(tr[0])["tag"].rsplit("/order=", 1)[0]] = tr
+    t0 = time.time()
+    rejected = []
+    states = 0
+    rest = prim
+    for it in range(8):
+        if not rest:
+            break
+        ok, r, consumed = tlc_trace(wd, [l for tr in rest for l in tr], "gated_%d" % it)
+        states += r.distinct
+        if ok:
+            rest = []
+            break
+        pos = 0
+        for ti, tr in enumerate(rest):
+            if pos <= consumed < pos + len(tr):
+                rejected.append((tr, consumed - pos, r))
+                rest = rest[ti + 1:]
+                break
+            pos += len(tr)
+    if rest:   # many rejections: one by one
+        def one(i_tr):
+            i, tr = i_tr
+            ok, r, consumed = tlc_trace(wd, tr, "gated_r%d" % i)
+            return ok, tr, consumed, r
+        with cf.ThreadPoolExecutor(max_workers=8) as ex:
+            for ok, tr, consumed, r in ex.map(one, enumerate(rest)):
+                states += r.distinct
+                if not ok:
+                    rejected.append((tr, consumed, r))
+    unexplained = 0
+
+    def second(x):
+        i, (tr, consumed, r) = x
+        base = json.loads(tr[0])["tag"].rsplit("/order=", 1)[0]
+        alt = alts.get(base)
+        if alt is None:
+            return base, tr, consumed, None
+        ok, r2, c2 = tlc_trace(wd, alt, "gated_alt%d" % i)
+        return base, tr, consumed, (ok, c2, alt)
+    with cf.ThreadPoolExecutor(max_workers=8) as ex:
+        for base, tr, consumed, res in ex.map(second, enumerate(rejected)):
+            if res and res[0]:
+                continue
+            unexplained += 1
+            ev = json.loads(tr[min(consumed, len(tr) - 1)])
+            parts = base.split("/")       # gated/seedN/<a>@<gate>/<b>/pipelined=..
+            verdict.add({"sig": "trace:gated:%s:%s" % (parts[2], parts[3]),
+                         "desc": "concurrent history %s is not a Host behaviour in either order consistent with real time; first order stops at event %d: %s" %
+                                 (base, consumed, json.dumps({k: v for k, v in ev.items() if k != "st"})[:500]),
+                         "replay": {"kind": "gated", "only": "%s/%s/%s" % (parts[2], parts[3], "true" if parts[4].endswith("True") or parts[4].endswith("true") else "false")}})
+    cleanup(o["files"] + [altp])
+    c = o["counts"]
+    log("  T: scheduled concurrency: %d histories (RPC pairs x gate points; %d gate points not reached), %d explained only by the second order, %d unexplained, %d target checks, %.1fs" %
+        (c.get("gated_histories", 0), c.get("gated_not_reached", 0), len(rejected) - unexplained, unexplained, c.get("gated_target_checks", 0), time.time() - t0 + o["wall"]))
+    if c.get("gated_histories", 0) < 50:
+        raise vlib.Infra("scheduled concurrency leg is vacuous: %s" % c)
+    o.update(dict(events=sum(len(t) for t in prim), accepted=len(prim) - unexplained, rejected=unexplained, states=states, second_order=len(rejected) - unexplained))
+    return o
+
+
 def cleanup(files):
     for f in files:
         try:
@@ -372,6 +444,8 @@ def replay_record(path, prop):
         verdict.add_all(res["mismatches"])
         f = os.path.join(wd, "hosttrace-replay-0.ndjson")
         validate_traces(wd, [f], verdict, tag="rp")
+    elif kind == "gated":
+        leg_gated(wd, binary, verdict, only=rp.get("only", ""))
     elif kind == "clientfree":
         res = vlib.go_run(binary, "TestReplayClientFree", wd, env={"VERIF_IN": path})
         verdict.add_all(res["mismatches"])
